@@ -237,6 +237,8 @@ class Interp(object):
     def force(self, v):
         while isinstance(v, OptVal):
             v = None if self.ctx.branch(v.isnone) else v.val
+        if isinstance(v, z3.ExprRef):
+            v = self.mk(v, sort_kind(v))       # raw solver terms never flow as values
         return v
 
     # ------------------------------------------------------------------ truthiness
@@ -487,8 +489,20 @@ class Interp(object):
                 self.pow2_axioms()
                 return SV(z3.ToReal(pow2(bi)), 'real', npres)
         self.real_axioms()
-        self.ctx.use_axiom('A-REAL:pow uninterpreted')
+        self.pow_axioms()
         return self.mk(fpow(self.z(a, 'real'), self.z(b, 'real')), 'real', npres)
+
+    def pow_axioms(self):
+        if getattr(self.ctx, '_pow_ax', False):
+            return
+        self.ctx._pow_ax = True
+        a, b, m, u, v = z3.Reals('ax_pa ax_pb ax_pm ax_pu ax_pv')
+        ax = self.ctx.add_axiom
+        ax(z3.ForAll([a, m], z3.Implies(a > 0, fpow(a, m) == fexp(m * flog(a))), patterns=[fpow(a, m)]), 'A-REAL:x**m = exp(m*log x) for x>0')
+        ax(z3.ForAll([u, v], fexp(u + v) == fexp(u) * fexp(v), patterns=[fexp(u + v)]), 'A-REAL:exp(u+v)=exp(u)exp(v)')
+        ax(z3.ForAll([u], fexp(u) > 0, patterns=[fexp(u)]), 'A-REAL:exp positive')
+        ax(z3.ForAll([a, b, m], z3.Implies(z3.And(0 < a, a < b, m > 0), fpow(a, m) < fpow(b, m)),
+                     patterns=[z3.MultiPattern(fpow(a, m), fpow(b, m))]), 'A-REAL:x**m increasing in x>0 for m>0')
 
     def real_axioms(self):
         """Algebraic facts about exp10/log10 used by obligations (A-REAL)."""
@@ -1323,7 +1337,7 @@ class Interp(object):
         if isinstance(s, NDArr):
             if s.ndim == 0:
                 raise_py('TypeError', 'len() of unsized object')
-            return s.shape[0]
+            return self.np.dim_val(s.shape[0])
         if isinstance(s, NT):
             return len(s.values)
         if s is None or self.is_number(s):
